@@ -1,17 +1,28 @@
 #!/usr/bin/env python3
-"""prepare.py Cxx [Cyy…]: create a scratch worktree of /repo under /tmp/seed/<id> and the prompt
-file /tmp/seed/<id>.prompt.txt for an independent sub-agent (property text only)."""
-import json, subprocess, sys, os
+"""prepare.py Cxx[suffix] …: create a scratch worktree of /repo under /tmp/seed/<name> and the
+prompt file /tmp/seed/<name>.prompt.txt for an independent sub-agent (property text only).
+With a suffix (C04b) the prompt names the earlier seeded changes for that property so that the
+new one is different."""
+import json, subprocess, sys, os, re, glob
 kit = os.path.dirname(os.path.abspath(__file__))
 tmpl = open(os.path.join(kit, "PROMPT.txt")).read()
 os.makedirs("/tmp/seed", exist_ok=True)
-for l in open("/verif/properties.jsonl"):
-    p = json.loads(l)
-    if p["id"] in sys.argv[1:]:
-        wt = f"/tmp/seed/{p['id']}"
-        if not os.path.isdir(wt):
-            subprocess.run(["git", "-C", "/repo", "worktree", "add", "-q", "--detach", wt, "HEAD"], check=True)
-        txt = tmpl.replace("WORKTREE", wt).replace("NAME", p["id"])
-        txt += f"{p['id']} — {p['title']}\n\nStatement: {p['statement']}\n\nQuantified over: {p['quantifier']['text']}\n\nRelevant source files: {', '.join(p['anchors']['files'])}\n"
-        open(f"/tmp/seed/{p['id']}.prompt.txt", "w").write(txt)
-        print("prepared", p["id"])
+props = {json.loads(l)["id"]: json.loads(l) for l in open("/verif/properties.jsonl")}
+for name in sys.argv[1:]:
+    pid = re.match(r"C\d+", name).group(0)
+    p = props[pid]
+    wt = f"/tmp/seed/{name}"
+    if not os.path.isdir(wt):
+        subprocess.run(["git", "-C", "/repo", "worktree", "add", "-q", "--detach", wt, "HEAD"], check=True)
+    txt = tmpl.replace("WORKTREE", wt).replace("NAME", name)
+    txt += f"{pid} — {p['title']}\n\nStatement: {p['statement']}\n\nQuantified over: {p['quantifier']['text']}\n\nRelevant source files: {', '.join(p['anchors']['files'])}\n"
+    earlier = []
+    for m in sorted(glob.glob(f"/verif/seeded/{pid}*/meta.json")):
+        try:
+            earlier.append(json.load(open(m)).get("summary", ""))
+        except Exception:
+            pass
+    if name != pid and earlier:
+        txt += "\nEarlier seeded regressions for this property (choose a DIFFERENT function / mechanism, ideally a different source file and a different clause of the property):\n" + "".join(f"  - {e}\n" for e in earlier)
+    open(f"/tmp/seed/{name}.prompt.txt", "w").write(txt)
+    print("prepared", name)
